@@ -189,13 +189,15 @@ template <class T> inline int CrossPlatformIsNaN(T value) {
 const char *ParseNumber(StringPiece str, float &out) {
   int count;
   out = kConverter.StringToFloat(str.data(), str.size(), &count);
-  UTIL_THROW_IF_ARG(CrossPlatformIsNaN(out) && str != "NaN" && str != "nan", ParseNumberException, (FirstToken(str)), "float");
+  // NaN is legitimate only when the converter consumed the literal NaN symbol; junk and the empty string also convert to NaN.
+  UTIL_THROW_IF_ARG(CrossPlatformIsNaN(out) && StringPiece(str.data(), count) != "NaN", ParseNumberException, (FirstToken(str)), "float");
   return str.data() + count;
 }
 const char *ParseNumber(StringPiece str, double &out) {
   int count;
   out = kConverter.StringToDouble(str.data(), str.size(), &count);
-  UTIL_THROW_IF_ARG(CrossPlatformIsNaN(out) && str != "NaN" && str != "nan", ParseNumberException, (FirstToken(str)), "double");
+  // NaN is legitimate only when the converter consumed the literal NaN symbol; junk and the empty string also convert to NaN.
+  UTIL_THROW_IF_ARG(CrossPlatformIsNaN(out) && StringPiece(str.data(), count) != "NaN", ParseNumberException, (FirstToken(str)), "double");
   return str.data() + count;
 }
 const char *ParseNumber(StringPiece str, long int &out) {
